@@ -80,6 +80,9 @@ struct Session {
     bool sentinel{false};
     bool closed_without_reply{false};
     bool timeout{false};
+    int phase{0};
+    size_t conns_at_end{0};
+    std::string raw_replies;
 };
 
 /** One server life: start, connect the mock peer, deliver `stream` in pieces, wait for the end marker, shut down. */
@@ -88,7 +91,8 @@ Session run_session(const std::string& stream, const std::vector<size_t>& cuts)
     Session out;
     std::mutex mu;
     std::atomic<bool> sentinel{false};
-    HTTPServer server{[&](std::unique_ptr<HTTPRequest>&& req) {
+    HTTPServer server{[&](std::unique_ptr<HTTPRequest>&& handed_over) {
+        std::unique_ptr<HTTPRequest> req{std::move(handed_over)}; // the dispatcher takes ownership (the server re-dispatches a request it still holds)
         {
             std::lock_guard<std::mutex> l(mu);
             if (req->m_target == "/__end__") sentinel = true;
@@ -127,8 +131,11 @@ Session run_session(const std::string& stream, const std::vector<size_t>& cuts)
         pos = end;
         // the next piece goes out only after the server took this one (or gave up on the connection)
         while (!recv_drained() && !eof && !expired()) { drain_replies(); std::this_thread::sleep_for(1ms); }
+        if (expired()) out.phase = 1;
     }
     while (!sentinel && !eof && !expired()) { drain_replies(); std::this_thread::sleep_for(1ms); }
+    if (expired() && !out.phase) out.phase = 2;
+    out.conns_at_end = server.GetConnectionsCount();
     // let the final reply / close arrive
     for (int i = 0; i < 2000 && !eof && !expired(); ++i) { drain_replies(); if (sentinel && replies.find("ok\n") != std::string::npos && server.GetConnectionsCount() == 0) break; std::this_thread::sleep_for(1ms); }
     drain_replies();
@@ -151,6 +158,7 @@ Session run_session(const std::string& stream, const std::vector<size_t>& cuts)
         p += 8;
     }
     out.closed_without_reply = replies.empty();
+    out.raw_replies = replies;
     return out;
 }
 
@@ -243,7 +251,12 @@ VERIF_TARGET(c52_server, init_server, 8, 64,
 
     Session a = run_session(stream, {});
     st.steps++;
-    if (a.timeout) { st.cls("server-timeout"); set_allow_list({}); SetMockTime(0); return; }
+    if (a.timeout) {
+        std::string esc;
+        for (unsigned char ch : stream) { if (ch == '\r') esc += "\\r"; else if (ch == '\n') esc += "\\n"; else esc.push_back(char(ch)); }
+        st.note("TIMEOUT phase=", a.phase, " conns=", a.conns_at_end, " dispatched=", a.dispatched.size(), " replies=", a.raw_replies.size(), " stream=", esc);
+        st.cls("server-timeout"); set_allow_list({}); SetMockTime(0); return;
+    }
     if (!allowed) {
         VCHECK(a.dispatched.empty() && !a.sentinel, "c52.allowlist", "peer 5.5.5.5 is outside every -rpcallowip entry [", lst, "] but requests were dispatched");
         VCHECK(a.closed_without_reply, "c52.allowlist", "peer outside the allow list received a reply");
